@@ -748,7 +748,9 @@ pub(crate) fn read_filter_block(
 	if location.size() == 0 {
 		return Err(Error::FilterBlockEmpty);
 	}
-	let buf = read_bytes(src, location)?;
+	// The filter block is written like every other block (payload, compression type,
+	// masked checksum): verify it the same way before trusting its offsets and bits.
+	let buf = read_verified_block_bytes(src, location)?;
 	Ok(FilterBlockReader::new(buf, policy))
 }
 
@@ -772,6 +774,12 @@ pub(crate) fn read_table_block(
 	f: Arc<dyn File>,
 	location: &BlockHandle,
 ) -> Result<Block> {
+	let block = read_verified_block_bytes(f, location)?;
+	Ok(Block::new(block, comparator))
+}
+
+/// Reads a block's payload, verifies its checksum and decompresses it.
+fn read_verified_block_bytes(f: Arc<dyn File>, location: &BlockHandle) -> Result<Vec<u8>> {
 	// Read block data
 	let buf = read_bytes(Arc::clone(&f), location)?;
 
@@ -798,9 +806,7 @@ pub(crate) fn read_table_block(
 	}
 
 	// Decompress
-	let block = decompress_block(&buf, CompressionType::try_from(compress[0])?)?;
-
-	Ok(Block::new(block, comparator))
+	decompress_block(&buf, CompressionType::try_from(compress[0])?)
 }
 
 /// Verifies a block's checksum.
